@@ -101,6 +101,94 @@ func runC17(r *Runner, tier string, rng *Rng) {
 	}
 	flush()
 	r.St.Exhaustive = true
+	// grammar-directed patterns: items are literals, escapes of every metacharacter, * and ?, and
+	// CLASSES whose members are plain characters, escaped metacharacters (\] \- \\ \* \[ \^), the
+	// metacharacters that are literal inside a class (* ? [ ^), and ranges — where scanner (chunk
+	// boundaries at * outside classes) and class parser have to agree; some are left malformed
+	// (seeded change c17-scan-escape-in-class needs `[\]*]`)
+	plain := []string{"a", "b", "c", "/", "z", ".", "é", "€"}
+	esc := []string{"\\]", "\\-", "\\\\", "\\*", "\\[", "\\^", "\\?", "\\a"}
+	inClassLit := []string{"*", "?", "[", "^", "*", "*"}
+	genClass := func() (string, []string) {
+		var sb strings.Builder
+		var members []string
+		sb.WriteString("[")
+		if rng.Chance(25) {
+			sb.WriteString("^")
+		}
+		nm := 1 + rng.Intn(3)
+		for k := 0; k < nm; k++ {
+			switch rng.Intn(5) {
+			case 0:
+				e := rng.Pick(esc)
+				sb.WriteString(e)
+				members = append(members, e[1:])
+			case 1:
+				c := rng.Pick(inClassLit)
+				sb.WriteString(c)
+				members = append(members, c)
+			case 2:
+				sb.WriteString("a-c")
+				members = append(members, "b")
+			default:
+				c := rng.Pick(plain)
+				sb.WriteString(c)
+				members = append(members, c)
+			}
+		}
+		switch rng.Intn(12) {
+		case 0: // unterminated
+		case 1:
+			sb.WriteString("-]") // range without end
+		default:
+			sb.WriteString("]")
+		}
+		return sb.String(), members
+	}
+	for i := 0; i < nrand/6; i++ {
+		var pb strings.Builder
+		var shape [][]string // per item: candidate strings for a matching name
+		ni := 1 + rng.Intn(4)
+		for k := 0; k < ni; k++ {
+			switch rng.Intn(7) {
+			case 0:
+				pb.WriteString("*")
+				shape = append(shape, []string{"", "a", "b/c", "]"})
+			case 1:
+				pb.WriteString("?")
+				shape = append(shape, plain)
+			case 2:
+				e := rng.Pick(esc)
+				pb.WriteString(e)
+				shape = append(shape, []string{e[1:]})
+			case 3, 4:
+				cl, members := genClass()
+				pb.WriteString(cl)
+				shape = append(shape, append(members, "q"))
+			default:
+				c := rng.Pick(plain)
+				pb.WriteString(c)
+				shape = append(shape, []string{c})
+			}
+		}
+		p := pb.String()
+		ns := make([]any, 8)
+		for k := range ns {
+			var nb strings.Builder
+			for _, cands := range shape {
+				if k < 6 || rng.Chance(80) {
+					nb.WriteString(rng.Pick(cands))
+				}
+			}
+			ns[k] = nb.String()
+		}
+		batch = append(batch, Case{Op: "glob", Args: map[string]any{"pattern": p, "names": ns}, Feat: "gram:" + patFeat(p)})
+		r.St.Hist["grammar_pairs"] += 8
+		if len(batch) >= 512 {
+			flush()
+		}
+	}
+	flush()
 	// random longer ASCII and UTF-8 pairs
 	ralpha := []string{"a", "b", "c", "/", "*", "*", "?", "?", "[", "]", "^", "-", "\\", "é", "€", "😀", "z", ".", "ä"}
 	rnalpha := []string{"a", "b", "c", "/", "-", "]", "é", "€", "😀", "z", ".", "ä", "^", "["}
@@ -151,5 +239,5 @@ func runC17(r *Runner, tier string, rng *Rng) {
 		}
 	}
 	flush()
-	r.St.Rule = "exhaustive: every pattern of length <= L over {a b / * ? [ ] ^ - \\} against every name of length <= M over {a b / - ]} (one evaluation = one pattern against the whole name list); random: patterns of length <= 10 over ASCII + 2/3/4-byte UTF-8 with names derived from the pattern or random. A class is (metacharacter set of the pattern, vector of verdicts); non-trivial = non-empty pattern."
+	r.St.Rule = "exhaustive: every pattern of length <= L over {a b / * ? [ ] ^ - \\} against every name of length <= M over {a b / - ]} (one evaluation = one pattern against the whole name list); grammar-directed: 1-4 items (literal, escape of any metacharacter, * , ?, classes whose members are plain / escaped / in-class-literal metacharacters / ranges, some malformed) with names assembled from per-item candidates; random: patterns of length <= 10 over ASCII + 2/3/4-byte UTF-8 with names derived from the pattern or random. A class is (metacharacter set of the pattern, vector of verdicts); non-trivial = non-empty pattern."
 }
